@@ -2,7 +2,7 @@
 import ast
 
 from .common import ctx, returns, calls_in_ctx, site, bound_args
-from .lvs import match_rules, CK, CP, last_component_guarded
+from .lvs import merge_key_rule, match_rules, CK, CP, last_component_guarded
 from ..flow import callee_attr
 from ..loader import AnalysisError, norm
 
@@ -142,5 +142,7 @@ def run(R):
     else:
         R.fail('C11.SIB.1', CK + '.Checker.save/load', sv.qual if not oks else ld.qual, 'def save' if not oks else 'def load',
                'save/load do not round-trip the model in use', site(sv, sv.f.node))
+    R.ob('C11.SIG.1', 'trie-edge merge key of a rule chain spells out every stored constraint value, with nested lists bracketed (chains are merged only when their constraints are equal)')
+    merge_key_rule(R, 'C11.SIG.1')
     R.assumptions += ['semantic equivalence of the compiler passes with the schema text for all schemas x names is NOT decided (DESIGN §4 C11)',
                       'TlvModel codec of the binary model (C08)']
